@@ -103,6 +103,7 @@ package queue
 
 //@ # ---- queue (C05/C06) ----------------------------------------------------------------------------
 //@ globalinv ErrExceedingMessageSizeLimit != nil && ErrOutOfSequenceRange != nil && ErrMsgNotFound != nil
+//@ lock queue.putMutex serializes rwMutex
 //@ lock queue.rwMutex protects appendedSeq.val acknowledgedSeq.val dataPageIndex indexPageIndex messageOffset dataPage indexPage
 //@ predicate qOK(q *queue) bool = q.rwMutex != nil && page.pageOK(q.metaPage) && page.psize(q.metaPage) >= 24 && page.factoryOK(q.indexPageFct) && page.factoryOK(q.dataPageFct) && page.fpsize(q.indexPageFct) == 4194304 && page.fpsize(q.dataPageFct) >= 134217728 && q.indexPageFct != q.dataPageFct && page.pfactory(q.metaPage) != q.indexPageFct && page.pfactory(q.metaPage) != q.dataPageFct
 //@ predicate qMetaPersisted(q *queue) bool = page.get64(page.pbytes(q.metaPage), 0) == uint64(q.appendedSeq.val) && page.get64(page.pbytes(q.metaPage), 8) == uint64(q.acknowledgedSeq.val)
@@ -229,10 +230,36 @@ package queue
 //@   uses get_put64 get_put32 get64_put64_other get64_put32_other get32_put64_other get32_put32_other
 //@   requires qOK(q) && qIndexOK(q) && seqOK(q.appendedSeq.val) && q.appendedSeq.val < 4611686018427387903
 //@   requires dataPageIndex >= 0 && dataLen >= 0 && dataLen <= 134217728 && messageOffset >= 0 && messageOffset <= 134217728
-//@   modifies q.appendedSeq.val, q.indexPage, q.indexPageIndex, cast(q.indexPageFct, "*page.factory").pages[*], cast(q.indexPageFct, "*page.factory").size.val, cast(q.metaPage, "*page.mappedPage").mappedBytes[*], cast(page.fpage(q.indexPageFct, (q.appendedSeq.val + 1) / 262144), "*page.mappedPage").mappedBytes[*], *
+//@   modifies q.appendedSeq.val, q.indexPage, q.indexPageIndex, cast(q.indexPageFct, "*page.factory").pages[*], cast(q.indexPageFct, "*page.factory").size.val, cast(q.metaPage, "*page.mappedPage").mappedBytes[*], cast(page.fpage(q.indexPageFct, (q.appendedSeq.val + 1) / 262144), "*page.mappedPage").mappedBytes[*] when page.fhas(q.indexPageFct, (q.appendedSeq.val + 1) / 262144)
 //@   ensures[dense] result == nil ==> q.appendedSeq.val == old(q.appendedSeq.val) + 1
 //@   ensures[entry] result == nil ==> (eDP(q, q.appendedSeq.val) == dataPageIndex && eOff(q, q.appendedSeq.val) == messageOffset && eLen(q, q.appendedSeq.val) == dataLen)
 //@   ensures[persisted] result == nil ==> page.get64(page.pbytes(q.metaPage), 0) == uint64(q.appendedSeq.val)
 //@   ensures[failed] result != nil ==> q.appendedSeq.val == old(q.appendedSeq.val)
 //@   ensures[index_current] result == nil ==> (qIndexOK(q) && q.indexPageIndex == q.appendedSeq.val / 262144)
+//@   ensures[state] qOK(q)
+//@   ensures[data_pages_untouched] all(p, "ref", (page.pageOK(p) && page.pfactory(p) == q.dataPageFct) ==> page.pbytes(p) == old(page.pbytes(p)))
+//@   ensures[old_pages_stay] all(id, "int64", old(page.fhas(q.indexPageFct, id)) ==> (page.fhas(q.indexPageFct, id) && page.fpage(q.indexPageFct, id) == old(page.fpage(q.indexPageFct, id))))
+//@ end
+
+//@ predicate entryOK(q *queue, s int64) bool = eOff(q, s) >= 0 && eLen(q, s) >= 0 && eOff(q, s) + eLen(q, s) <= 134217728 && eDP(q, s) >= 0
+//@ func queue.Get
+//@   prop C05
+//@   requires qOK(q) && seqOK(q.appendedSeq.val) && q.acknowledgedSeq.val >= 0 - 1
+//@   requires (sequence > q.acknowledgedSeq.val && sequence <= q.appendedSeq.val) ==> entryOK(q, sequence)
+//@   ensures[only_valid_sequences] err == nil ==> (sequence > q.acknowledgedSeq.val && sequence <= q.appendedSeq.val)
+//@   ensures[bytes_of_entry] err == nil ==> (len(data) == eLen(q, sequence) && forall(j, 0, len(data), data[j] == page.pbytes(page.fpage(q.dataPageFct, eDP(q, sequence)))[eOff(q, sequence) + j]))
+//@ end
+//@ func queue.Put
+//@   prop C05
+//@   atomic rwMutex
+//@   opaque get64 put64 get32 put32
+//@   uses get_put64 get_put32 get64_put64_other get64_put32_other get32_put64_other get32_put32_other
+//@   requires qOK(q) && qCursorOK(q) && qIndexOK(q) && seqOK(q.appendedSeq.val) && q.appendedSeq.val < 4611686018427387903 && q.dataPageIndex < 4611686018427387903
+//@   modifies *
+//@   ensures[dense] result == nil ==> q.appendedSeq.val == old(q.appendedSeq.val) + 1
+//@   ensures[failed_put_appends_nothing] result != nil ==> q.appendedSeq.val == old(q.appendedSeq.val)
+//@   ensures[entry_valid] result == nil ==> (entryOK(q, q.appendedSeq.val) && eLen(q, q.appendedSeq.val) == len(data) && page.fhas(q.dataPageFct, eDP(q, q.appendedSeq.val)))
+//@   ensures[readback] result == nil ==> forall(j, 0, len(data), page.pbytes(page.fpage(q.dataPageFct, eDP(q, q.appendedSeq.val)))[eOff(q, q.appendedSeq.val) + j] == old(data[j]))
+//@   ensures[region_below_cursor] result == nil ==> (eDP(q, q.appendedSeq.val) == q.dataPageIndex && eOff(q, q.appendedSeq.val) + eLen(q, q.appendedSeq.val) <= q.messageOffset)
+//@   ensures[state_ok] qOK(q) && qCursorOK(q) && (result == nil ==> qIndexOK(q))
 //@ end
